@@ -11,7 +11,7 @@ use std::collections::BTreeMap;
 use std::rc::Rc;
 
 /// (name, text, dependencies as pool indices)
-const POOL: [(&str, &str, &[usize]); 36] = [
+const POOL: [(&str, &str, &[usize]); 42] = [
     ("m", "?? the metre\nm !meter\n", &[]),
     ("kilo", "kilo- 1000\n", &[]),
     ("k", "k-- kilo\n", &[1]),
@@ -54,6 +54,16 @@ const POOL: [(&str, &str, &[usize]); 36] = [
     ("a_mm", "a_mm molar_mass of carbon\n", &[26]),
     ("a_neg", "a_neg -z_long\n", &[23]),
     ("a_frac", "a_frac m / z_two\n", &[0, 31]),
+    // formulas of a single element, with and without a count, from names sorting before and after it
+    ("aaoxy", "aaoxy O2\n", &[27]),
+    ("zzoxy", "zzoxy O3\n", &[27]),
+    ("aacarb", "aacarb C\n", &[26]),
+    // a substance (unit name space, sorts first) whose later property mentions an earlier property
+    // that is named like a quantity: the quantity is pulled in early, before its base unit
+    ("aaa_sub", "aaa_sub {\n    length const aaa_length 3\n    area const aaa_area length^2\n}\n", &[0, 13]),
+    // a prefix defined by a name that is both a unit and a prefix, from a prefix that sorts first
+    ("double", "double- 2\ndouble 2\n", &[]),
+    ("dbl", "dbl-- double\n", &[40]),
 ];
 
 fn pool_entries(i: usize) -> Vec<DefEntry> {
@@ -282,7 +292,7 @@ impl Space for C12 {
         Meta {
             id: "C12",
             level: "exploration",
-            rule: "(a) all 5040 permutations of every dependency-closed 7-subset (quick: every 32nd, plus the first subset containing each definition) of a 36-definition pool (names in exponents, property accesses, under unary minus and as divisors, each referenced from a name sorting first; 4-long alias chain, diamond, dependency reachable only through a prefix split / only through a plural, long+short prefixes defined through each other, quantities, a substance, category, docs); (b) the bundled database reversed, sorted by name ascending/descending, in dependency-reversed order, and under every rotation (quick: every 24th); (c) a 6-definition extension set distributed over ./definitions.units and $XDG_CONFIG_HOME/rink/definitions.units in all 2^6 assignments x both internal orders x 4 file endings (as written, no final newline, either file ending inside a `!category` block) through the real `rink --dump`; (d) text level: all 5040 orders of 7 snippets (documented and undocumented base unit, quantities, units, prefix, substance) x all 36 splits into up to 3 files x 3 positions of the substance's `!symbol` directive within its file, each file parsed as a file (parser state such as a pending `??` comment carries between lines), against the snippets parsed one by one. Oracle: byte-identical Debug dump of the whole Registry and identical error multiset versus the reference order. Non-trivial = all; distinct by the order used".into(),
+            rule: "(a) all 5040 permutations of every dependency-closed 7-subset (quick: every 32nd, plus the first subset containing each definition) of a 39-definition pool (single-element formulas `O2`, `C` and compound ones from names sorting before and after the elements; names in exponents, property accesses, under unary minus and as divisors, each referenced from a name sorting first; 4-long alias chain, diamond, dependency reachable only through a prefix split / only through a plural, long+short prefixes defined through each other, quantities, a substance, category, docs); (b) the bundled database reversed, sorted by name ascending/descending, in dependency-reversed order, and under every rotation (quick: every 24th); (c) a 6-definition extension set distributed over ./definitions.units and $XDG_CONFIG_HOME/rink/definitions.units in all 2^6 assignments x both internal orders x 4 file endings (as written, no final newline, either file ending inside a `!category` block) through the real `rink --dump`; (d) text level: all 5040 orders of 7 snippets (documented and undocumented base unit, quantities, units, prefix, substance) x all 36 splits into up to 3 files x 3 positions of the substance's `!symbol` directive within its file, each file parsed as a file (parser state such as a pending `??` comment carries between lines), against the snippets parsed one by one. Oracle: byte-identical Debug dump of the whole Registry and identical error multiset versus the reference order. Non-trivial = all; distinct by the order used".into(),
             assumptions: vec![
                 "premise of the statement: uniquely named definitions - entries sharing (namespace, name) in the shipped file are reduced to their last occurrence before permuting (listed in the evidence)".into(),
                 "Debug of Registry shows every field".into(),
